@@ -64,6 +64,9 @@ pub struct Finding {
     /// At least one of these must be present as well (if non-empty).
     #[serde(default)]
     pub any_of: Vec<String>,
+    /// ... and at least one of these (if non-empty).
+    #[serde(default)]
+    pub any_of2: Vec<String>,
     #[serde(default)]
     pub commit: String,
     pub what: String,
@@ -142,6 +145,7 @@ pub fn matches_known(f: &Finding, property: &str, oracle: &str, feats: &BTreeSet
         && (f.oracle.is_empty() || f.oracle == oracle)
         && f.features.iter().all(|x| feats.contains(x))
         && (f.any_of.is_empty() || f.any_of.iter().any(|x| feats.contains(x)))
+        && (f.any_of2.is_empty() || f.any_of2.iter().any(|x| feats.contains(x)))
 }
 
 /// Explores all cells of a property within the time budget and classifies what was found.
